@@ -1,11 +1,11 @@
 package main
 
 import (
-	"go/constant"
-	"strings"
 	"fmt"
+	"go/constant"
 	"go/token"
 	"go/types"
+	"strings"
 
 	"golang.org/x/tools/go/ssa"
 )
@@ -546,6 +546,47 @@ func ruleTSEEALL(p *Program, r *Reporter) {
 	// fields assigned inside the loop (directly or in callees of the loop body)
 	assignedInLoop := map[*types.Var]bool{}
 	var inLoopFns []*ssa.Function
+	// the snapshot must be taken after the round's updates were merged into the
+	// accumulated ones (ModelUpdates allocates its map lazily: a copy taken before the
+	// first Merge holds a nil map and never sees anything)
+	var mergeCalls []ssa.Instruction
+	for _, b := range loopFn.Blocks {
+		if loopHeaderOf(b) == nil {
+			continue
+		}
+		for _, ins := range b.Instrs {
+			if c, ok := ins.(*ssa.Call); ok {
+				if sc := c.Call.StaticCallee(); sc != nil && sc.Name() == "Merge" {
+					mergeCalls = append(mergeCalls, c)
+				}
+			}
+		}
+	}
+	afterMerge := func(st *ssa.Store) bool {
+		// the accumulator the snapshot is taken from, when it is a local variable
+		var src ssa.Value
+		if ld, ok := st.Val.(*ssa.UnOp); ok && ld.Op == token.MUL {
+			if _, isAlloc := ld.X.(*ssa.Alloc); isAlloc {
+				src = ld.X
+			}
+		}
+		for _, m := range mergeCalls {
+			if src != nil {
+				if c, ok := m.(*ssa.Call); ok && len(c.Call.Args) > 0 {
+					if _, isAlloc := c.Call.Args[0].(*ssa.Alloc); isAlloc && c.Call.Args[0] != src {
+						continue // a Merge into some other accumulator
+					}
+				}
+			}
+			if m.Block() == st.Block() && instrBefore(m, st) {
+				return true
+			}
+			if m.Block() != st.Block() && m.Block().Dominates(st.Block()) {
+				return true
+			}
+		}
+		return false
+	}
 	for _, b := range loopFn.Blocks {
 		h := loopHeaderOf(b)
 		if h == nil {
@@ -553,7 +594,7 @@ func ruleTSEEALL(p *Program, r *Reporter) {
 		}
 		for _, ins := range b.Instrs {
 			if st, ok := ins.(*ssa.Store); ok {
-				if fa, ok := st.Addr.(*ssa.FieldAddr); ok && isMUField(fieldOfAddr(fa)) {
+				if fa, ok := st.Addr.(*ssa.FieldAddr); ok && isMUField(fieldOfAddr(fa)) && afterMerge(st) {
 					assignedInLoop[fieldOfAddr(fa)] = true
 				}
 			}
